@@ -36,6 +36,11 @@ type c04Case struct {
 	Node     int    `json:"node,omitempty"`
 	Point    int    `json:"point,omitempty"`
 	What     string `json:"what,omitempty"`
+	// instance, hand-built variant of the parsed tree: the boolean field Flip of node FlipNode is inverted
+	// before decorating (only where the undecorated print stays the same, e.g. FuncType.Func of a
+	// function declaration's signature)
+	Flip     string `json:"flip,omitempty"`
+	FlipNode int    `json:"flip_node,omitempty"`
 }
 
 var namedComment = regexp.MustCompile(`/\*([A-Za-z]+)\*/`)
@@ -258,6 +263,55 @@ func runC04(ctx *core.Ctx, unit int) {
 			ctx.CountState(true)
 			ctx.R.Transitions++
 			ctx.Eval(cs, c04Check(cs))
+		}
+		// hand-built variants: a boolean field inverted where that does not change the undecorated print;
+		// all points of the node itself and of its parent must still render at their places
+		{
+			plain := mustPrint(f)
+			nodes := allNodes(f)
+			index := map[dst.Node]int{}
+			for i, nd := range nodes {
+				index[nd] = i
+			}
+			parentOf := map[dst.Node]dst.Node{}
+			for _, s := range allSlots(f) {
+				parentOf[s.Get()] = s.Parent
+			}
+			for ni, nd := range nodes {
+				v := reflect.ValueOf(nd).Elem()
+				for fi := 0; fi < v.NumField(); fi++ {
+					if v.Field(fi).Kind() != reflect.Bool {
+						continue
+					}
+					name := v.Type().Field(fi).Name
+					switch typeName(nd) + "." + name {
+					case "FuncType.Func", "CompositeLit.Incomplete", "StructType.Incomplete", "InterfaceType.Incomplete", "BlockStmt.RbraceHasNoPos":
+						// flags that own no token of their node (FieldList.Opening, GenDecl.Lparen ... decide
+						// which node a parenthesis belongs to, so inverting them changes the documented places)
+					default:
+						continue
+					}
+					if name == "Func" && !v.Field(fi).Bool() {
+						continue // only true -> false: claiming a keyword that is not printed is no hand-built variant
+					}
+					v.Field(fi).SetBool(!v.Field(fi).Bool())
+					out, err := printFile(f)
+					v.Field(fi).SetBool(!v.Field(fi).Bool())
+					if err != nil || out != plain {
+						continue // the flag matters for printing: not a redundant one
+					}
+					targets := []int{ni}
+					if p, ok := parentOf[nd]; ok {
+						targets = append(targets, index[p])
+					}
+					for _, tn := range targets {
+						cs := c04Case{Mode: "instance", Template: t.Name, Node: tn, Point: -1, Flip: name, FlipNode: ni, What: typeName(nodes[tn]) + " with " + typeName(nd) + "." + name + " inverted"}
+						ctx.CountState(true)
+						ctx.R.Transitions++
+						ctx.Eval(cs, c04Check(cs))
+					}
+				}
+			}
 		}
 		for ni, nd := range allNodes(f) {
 			pts := decPoints(nd)
@@ -512,6 +566,28 @@ func mustParseDoc(src, path string) *dst.File {
 }
 
 // c04Instance: structural rule on an arbitrary node instance.
+// c04PartAbsent: the token or child a decoration point is named for is not there (nil child, false
+// flag, empty list; the X point of an identifier without a package path), so the point has nothing to
+// follow and may coincide with the node's first token.
+func c04PartAbsent(n dst.Node, point string) bool {
+	if id, ok := n.(*dst.Ident); ok && point == "X" {
+		return id.Path == ""
+	}
+	fv := reflect.ValueOf(n).Elem().FieldByName(point)
+	if !fv.IsValid() {
+		return false
+	}
+	switch fv.Kind() {
+	case reflect.Ptr, reflect.Interface:
+		return fv.IsNil()
+	case reflect.Bool:
+		return !fv.Bool()
+	case reflect.Slice:
+		return fv.Len() == 0
+	}
+	return false
+}
+
 func c04Instance(cs c04Case, fail func(string, string, ...interface{}) core.Outcome) core.Outcome {
 	t, ok := gen.Find(gen.Templates(), cs.Template)
 	if !ok {
@@ -526,6 +602,10 @@ func c04Instance(cs c04Case, fail func(string, string, ...interface{}) core.Outc
 	f, err := dec.DecorateFile(af)
 	if err != nil {
 		panic(err)
+	}
+	if cs.Flip != "" {
+		fv := reflect.ValueOf(allNodes(f)[cs.FlipNode]).Elem().FieldByName(cs.Flip)
+		fv.SetBool(!fv.Bool())
 	}
 	var labels []string
 	if cs.Node == -1 {
@@ -660,6 +740,8 @@ func c04Instance(cs c04Case, fail func(string, string, ...interface{}) core.Outc
 			return fail("instance-start-misplaced:"+tn, "%s.Start printed after %d tokens, the node's first token is number %d\n%s", tn, at, first, out)
 		case p.Name == "End" && (at < last || at > lastMax):
 			return fail("instance-end-misplaced:"+tn, "%s.End printed after %d tokens; the node's tokens end at %d and the next separately emitted token is number %d\n%s", tn, at, last, lastMax, out)
+		case p.Name != "Start" && p.Name != "End" && at == first && first < last && !c04PartAbsent(n, p.Name):
+			return fail("instance-point-before-first-token:"+tn+"."+p.Name, "%s.%s printed before the node's first token (token %d): every point but Start follows the token or child it is named for\n%s", tn, p.Name, first, out)
 		case at < first || at > lastMax:
 			return fail("instance-point-outside-node:"+tn+"."+p.Name, "%s.%s printed after %d tokens, outside the node's tokens [%d,%d]\n%s", tn, p.Name, at, first, lastMax, out)
 		}
